@@ -147,6 +147,40 @@ func c19Pair(w *core.W, a, b model.Name, kind string) {
 			w.Violation("C19/IsSubDomain", fmt.Sprintf("IsSubDomain(parent=%q, child=%q)=%v, shared=%d parent labels=%d", sa, sb, got, want, len(a)), wit)
 		}
 	})
+	// the same pair with the letter case of one side inverted, and both written without the final dot
+	flip := func(n model.Name) model.Name {
+		o := n.Clone()
+		for _, l := range o {
+			for i, c := range l {
+				if c >= 'a' && c <= 'z' || c >= 'A' && c <= 'Z' {
+					l[i] = c ^ 0x20
+				}
+			}
+		}
+		return o
+	}
+	for _, v := range []struct {
+		kind   string
+		xa, xb string
+	}{
+		{"case-inverted", sa, flip(b).Pres()},
+		{"relative", a.PresRel(), b.PresRel()},
+		{"relative-case-inverted", flip(a).PresRel(), b.PresRel()},
+	} {
+		if v.xa == "" || v.xb == "" {
+			continue
+		}
+		w.Eval(1)
+		wit2 := map[string]any{"a": v.xa, "b": v.xb, "kind": kind + "/" + v.kind}
+		w.Guard("CompareDomainName", wit2, func() {
+			if got := dns.CompareDomainName(v.xa, v.xb); got != want {
+				w.Violation("C19/CompareDomainName/"+v.kind, fmt.Sprintf("CompareDomainName(%q,%q)=%d, shared suffix labels=%d", v.xa, v.xb, got, want), wit2)
+			}
+			if got := dns.IsSubDomain(v.xa, v.xb); got != (want == len(a)) {
+				w.Violation("C19/IsSubDomain/"+v.kind, fmt.Sprintf("IsSubDomain(parent=%q, child=%q)=%v, shared=%d parent labels=%d", v.xa, v.xb, got, want, len(a)), wit2)
+			}
+		})
+	}
 }
 
 // c19Origin checks that AddOrigin and TrimDomainName are inverse for a relative name under an origin.
